@@ -64,7 +64,7 @@ def item_name(item):
     if isinstance(item, dict):
         return item.get('name', repr(item))
     if isinstance(item, (tuple, list)):
-        return ':'.join(('%02X' % x if isinstance(x, int) else str(x)) for x in item)
+        return ':'.join(('%02X' % x if (isinstance(x, int) and not isinstance(x, bool)) else str(x)) for x in item)
     return str(item)
 
 
@@ -148,8 +148,12 @@ class Report:
         """replay each candidate violation on the unpatched code; split into confirmed / not reproducing"""
         confirmed, ghosts = [], []
         seen = set()
-        for v in self.violations:
+        for v in sorted(self.violations, key=lambda v: v['key']):
             if v['key'] in seen:
+                continue
+            if len(confirmed) >= 5 or len(seen) >= 25:
+                # enough to report; the remaining candidates are listed in the evidence as not replayed
+                self.notes.append('candidate not replayed (cap reached): ' + v['text'])
                 continue
             seen.add(v['key'])
             try:
